@@ -208,15 +208,27 @@ func fieldOf(v ssa.Value) (*types.Named, string, bool) {
 		if !ok {
 			return nil, "", false
 		}
-		return namedOf(pt.Elem()), st.Field(x.Field).Name(), true
+		return namedOf(pt.Elem()), refFieldName(namedOf(pt.Elem()), st.Field(x.Field).Name()), true
 	case *ssa.Field:
 		st, ok := x.X.Type().Underlying().(*types.Struct)
 		if !ok {
 			return nil, "", false
 		}
-		return namedOf(x.X.Type()), st.Field(x.Field).Name(), true
+		return namedOf(x.X.Type()), refFieldName(namedOf(x.X.Type()), st.Field(x.Field).Name()), true
 	}
 	return nil, "", false
+}
+
+// refFieldName maps the current name of an unexported struct field to the name the rules know it by
+// (anchors.go: a renamed field of a module struct, resolved by type).
+func refFieldName(n *types.Named, name string) string {
+	if n == nil || n.Obj().Pkg() == nil {
+		return name
+	}
+	if a, ok := fieldAlias[n.Obj().Pkg().Path()+"."+n.Obj().Name()+"."+name]; ok {
+		return a
+	}
+	return name
 }
 
 // ---------- CFG path queries on SSA ----------
